@@ -42,7 +42,7 @@ ALPHABET_TEXT = list('"\'\\|>!&*%[]{}:#-?@`,~<=') + ['\n', '\r', '\t', ' ', '\x0
 ALPHABET_BYTES = [ord(c) for c in '"\'\\|>!&*%[]{}:#-?@`,~<=\n\r\t 09UuxFfG'] + [0x00, 0x85, 0xFF, 0xFE, 0xC0, 0xC2, 0xEF, 0xBB, 0xBF,
                                                                                  0x80, 0xE2, 0xED, 0xF4, 0xF8, 0x7F, 0x01]
 FAULTS = ['truncate', 'bitflip', 'overwrite', 'drop', 'duplicate', 'stutter', 'swap', 'garbage', 'bom', 'oddlen',
-          'confuse', 'surrogate', 'nest', 'transcode', 'numfield', 'flood']
+          'confuse', 'surrogate', 'nest', 'transcode', 'numfield', 'flood', 'repeatitem']
 # what ends up in a numeric field (escape code, URI escape, version number, indentation indicator)
 # after a small corruption: the characters that int() / float() / str.isdigit() accept or almost accept
 NUMFIELD_CHARS = ['-', '+', ' ', '\t', '_', '.', 'x', 'X', 'o', 'b', 'e', 'L', 'l', 'G', 'g', '\n', '\u0663', '\u00b2', '\u2460', '\uff10',
@@ -151,6 +151,22 @@ def gen_fault(r, units, is_text):
         else:
             f['at'] = q
             f['unit'] = r.choice(NUMFIELD_CHARS)
+    elif kind == 'repeatitem':
+        # message duplication at record granularity: one item of a flow collection / one line repeated many times
+        seps = [0]
+        for i in range(min(n, 6000)):
+            u = units[i]
+            ch = chr(u) if isinstance(u, int) else u
+            if ch in ',\n':
+                seps.append(i + 1)
+        if len(seps) >= 2:
+            j = r.randrange(len(seps) - 1)
+            f['at'] = seps[j]
+            f['len'] = max(1, min(seps[j + 1] - seps[j], 200))
+        else:
+            f['len'] = min(n, 4) or 1
+        f['kind'] = 'stutter'
+        f['times'] = r.choice([3, 40, 130, 400, 1025])
     elif kind == 'flood':
         # one unit repeated many times (a stuck key, line noise), preferably at the start of a line
         f['unit'] = r.choice(ALPHABET_TEXT) if is_text else r.choice(ALPHABET_BYTES)
@@ -165,8 +181,8 @@ def gen_fault(r, units, is_text):
     elif kind in ('drop', 'duplicate'):
         f['len'] = r.choice([1, 1, 2, 3, 8, 40, 400])
     elif kind == 'stutter':
-        f['len'] = r.choice([1, 1, 1, 2, 3])
-        f['times'] = r.choice([2, 3, 10, 100, 1025, 5000])
+        f['len'] = r.choice([1, 1, 1, 2, 3, 4, 5, 8])
+        f['times'] = r.choice([2, 3, 10, 100, 1025, 5000]) if f['len'] <= 3 else r.choice([2, 10, 130, 400, 1025])
     elif kind == 'swap':
         f['len'] = r.choice([1, 2, 5, 30])
         f['to'] = pick_pos(r, units, n)
@@ -294,7 +310,13 @@ def base_payload(r, rd):
             return 'noise', ''.join(rd.choice(ALPHABET_TEXT) if rd.random() < 0.6 else chr(rd.choice([rd.randrange(0x20, 0x7f), rd.randrange(0xa0, 0x3000),
                                     rd.randrange(0x10000, 0x10ffff)])) for _ in range(n)), True
         return 'noise', bytes(rd.choice(ALPHABET_BYTES) if rd.random() < 0.6 else rd.randrange(256) for _ in range(n)), False
-    if x < 0.07:
+    if x < 0.06:
+        # tiny recursive documents (an anchor on a collection that contains its own alias): whatever walks
+        # a node graph must cope with cycles, also when a fault multiplies the aliases
+        text = rd.choice(['&a [x, *a, *a, y]\n', '--- &m {k: *m, j: [*m, *m]}\n', '- &a [*a]\n- *a\n- *a\n', '&a\n- *a\n- *a\n- b: *a\n',
+                          '? &k [*k]\n: *k\n', '&a [&b {x: *a, y: *b}, *b, *a, *a]\n'])
+        return ('recursive', text, True) if rd.random() < 0.5 else ('recursive', text.encode('utf-8'), False)
+    if x < 0.11:
         # small layouts the corpus does not contain: a quoted scalar that spans lines, its last line at an
         # arbitrary indentation, followed on the same line by another token (all small combinations)
         q = rd.choice(['"', "'"])
